@@ -2,6 +2,7 @@ use clap::Parser;
 use jawk::go;
 use jawk::Cli;
 use std::cell::RefCell;
+use std::io::Write;
 use std::rc::Rc;
 
 fn main() {
@@ -11,6 +12,11 @@ fn main() {
     let stderr = Rc::new(RefCell::new(std::io::stderr()));
 
     if let Err(err) = go(cli, stdout, stderr, stdin) {
+        eprintln!("{err}");
+        std::process::exit(-1);
+    }
+    // what is still buffered (rows that do not end with a line feed) is written now: a failure is an error too
+    if let Err(err) = std::io::stdout().flush() {
         eprintln!("{err}");
         std::process::exit(-1);
     }
